@@ -81,11 +81,19 @@ def intOfFloatTok (t : Str) : Option Int :=
     (natOfDigits ds).map (fun n => if neg then -(Int.ofNat n) else Int.ofNat n)
   else none
 
+/-- limits of the file format as openpyxl enforces them (observed on the real stack, negative examples in
+    Props/C09.lean and in the harness): a cell text is cut to 32767 characters; a column index above 18278 (`ZZZ`) makes
+    `get_column_letter` raise ValueError (Excel itself stops at 16384 columns, openpyxl does not mind); a worksheet has
+    at most 1048576 rows -/
+def maxCellChars : Nat := 32767
+def maxColumns : Nat := 18278
+def maxRows : Nat := 1048576
+
 /-- what one appended cell value reads back as -/
 def storeCell : Cell → Cell
   | .str [] => .none                       -- written as an empty cell
   | .str ('=' :: _) => .none               -- a formula; `data_only=True` finds no cached value
-  | .str s => .str s
+  | .str s => .str (s.take maxCellChars)  -- openpyxl cuts longer text silently
   | .float t =>
     if t = "-0.0".toList then .int 0 "0.0".toList          -- "%.16g" % -0.0 = "-0" -> int("-0") = 0
     else match intOfFloatTok t with
@@ -120,8 +128,9 @@ def store (rows : List Row) : List Row :=
 def charOK (c : Char) : Bool :=
   (32 ≤ c.toNat || c.toNat == 9 || c.toNat == 10) && c.toNat != 0xFFFE && c.toNat != 0xFFFF
 
-/-- text openpyxl gives back unchanged: non-empty, not a formula, legal characters -/
-def strRepresentable (s : Str) : Bool := !s.isEmpty && s.head? != some '=' && s.all charOK
+/-- text openpyxl gives back unchanged: non-empty, not a formula, legal characters, at most 32767 of them -/
+def strRepresentable (s : Str) : Bool :=
+  !s.isEmpty && s.head? != some '=' && s.all charOK && decide (s.length ≤ maxCellChars)
 
 /-- number of significant decimal digits of a float `repr` token -/
 def sigDigits (t : Str) : Nat :=
@@ -197,7 +206,14 @@ def firstColumnOK (c : Column) : Bool :=
 def naRepOK (naRep : Str) : Bool :=
   isMissingMarker naRep && strRepresentable naRep && !allSpace naRep && notMarker naRep
 
-def excelWF (t : TableVal) : Bool :=
+/-- sizes the file format can hold: the header cell `**name*` and the destinations cell within the cell limit, the
+    columns the table occupies in the sheet (its columns, or rows + 2 when transposed) within openpyxl's limit -/
+def sizeOK (t : TableVal) : Bool :=
+  decide (t.name.length + 3 ≤ maxCellChars) && decide ((destCell t).length ≤ maxCellChars) &&
+  decide ((if t.transposed then t.nRows + 2 else t.columns.length) ≤ maxColumns)
+
+/-- the structural clauses (DESIGN §3.1-6) -/
+def excelWFCore (t : TableVal) : Bool :=
   -- 1. name: legal characters, no `*` at either end, not empty when transposed (`***` is a directive)
   t.name.all charOK && t.name.head? != some '*' && t.name.getLast? != some '*' &&
   (!t.transposed || !t.name.isEmpty) &&
@@ -210,6 +226,12 @@ def excelWF (t : TableVal) : Bool :=
      | [] => true
      | c :: _ => firstColumnOK c)
 
+def excelWF (t : TableVal) : Bool := sizeOK t && excelWFCore t
+
+
+/-- the rows a sheet needs stay within the worksheet limit -/
+def sheetRowsOK (naRep : Str) (sepLines : Nat) (tables : List TableVal) : Bool :=
+  decide ((layoutSheet naRep sepLines tables).length ≤ maxRows)
 
 /-! ## sheet names (openpyxl `create_sheet` / `Worksheet.title`) -/
 
@@ -318,7 +340,8 @@ structure SheetOut where
 def writeSheet (naRep : Str) (sepLines : Nat) (styles : Bool) (name : Str) (tables : List TableVal) :
     Except PyExc SheetOut :=
   let rows := layoutSheet naRep sepLines tables
-  if styles then do
+  if width rows > maxColumns then .error .valueError      -- `ws.append`: "Invalid column index"
+  else if styles then do
     let ts ← styleTargets (dropTrailingEmpty rows).length (width rows) sepLines 0 0 (tables.map dimOf)
     pure ⟨name, store rows, ts, widenedColumns (tables.map dimOf)⟩
   else pure ⟨name, store rows, [], []⟩
